@@ -89,6 +89,13 @@ def case(g, tier, ci):
             elif k < 0.5:
                 hi = {"twait": 3, "jump_input": 3, "nrep": 16383, "jump_target": P, "goto": P}[fld]
                 ops.append({"op": "sq.setSeq", "id": "s", "pos": p, "field": fld, "v": r.randint(0, hi)})
+    if ci % 7 == 3:
+        # a position set up, then filled again: addElement resets its sequencing to the defaults, and the five lists show
+        # the defaults there (seeded C15-m10: the earlier settings kept)
+        p = r.randint(1, P)
+        ops += [{"op": "sq.setSeq", "id": "s", "pos": p, "field": "twait", "v": 2}, {"op": "sq.setSeq", "id": "s", "pos": p, "field": "nrep", "v": 5},
+                {"op": "sq.setSeq", "id": "s", "pos": p, "field": "goto", "v": P},
+                {"op": "sq.addElement", "id": "s", "pos": p, "el": eid}]
     if ci % 5 == 2:
         ops.append({"op": "sq.setSeq", "id": "s", "pos": r.randint(1, P), "field": "nrep", "v": 0})      # 0 repetitions = infinite, a legal value
     if not boundary and ci % 4 == 1:
